@@ -4,3 +4,5 @@ import MiniconfVerif.Props.C06
 #print axioms MiniconfVerif.C06.bits_exact
 #print axioms MiniconfVerif.C06.length_exact
 #print axioms MiniconfVerif.C06.buffers_suffice
+#print axioms MiniconfVerif.C06.node_len_le_max
+#print axioms MiniconfVerif.C06.path_buffer_suffices
